@@ -642,7 +642,11 @@ def root_sig(body, ops):
             elif r[0] == "const":
                 rs.append("const:%s" % ":".join(str(x) for x in r[1:] if x is not None))
             elif r[0] == "field":
+                if r[1] in ("ControlFlow", "Option", "Poll", "Result"):
+                    continue  # payload plumbing of `?`, `if let`, `.await`: not part of the site's identity
                 rs.append("field:%s.%s" % (r[1], r[2]))
+            elif r[0] == "agg" and r[1] in ("Option", "Result", "ControlFlow", "Poll"):
+                continue
             elif r[0] in ("agg", "await", "cut", "outparam", "closure", "fn"):
                 rs.append("%s:%s" % (r[0], ":".join(str(x) for x in r[1:2])))
             else:
